@@ -56,7 +56,7 @@ def run(ctx):
                            "on %d probe blobs is an input (c26_blobs.ndjson)" % len(rows))
 
     # M + R: the model of the input space; its invariants; one script per case
-    res = ctx.model_check("CodecGen", "CodecGen_mc.cfg", name="tlc_gen", timeout=1800,
+    res = ctx.model_check("CodecGen", "CodecGen_mc.cfg", name="tlc_gen", timeout=1800, workers=2,
                           defines={"Emit": "TRUE", "Full": ctx.pick("FALSE", "TRUE")})
     raw = res.printed("SCRIPT")
     raw.sort(key=lambda s: (s["typ"], s["cls"], s["kind"], s["sub"], s["bytes"]))
